@@ -544,6 +544,10 @@ impl<'a> Gen<'a> {
                             .flat_map(|(_, v)| v.fields.iter().flatten().filter(|f| !f.skip).map(|f| f.key.clone()))
                             .filter(|k| !fs.iter().any(|f| f.key == *k || f.ident == *k))
                             .collect();
+                        // ... and the selected variant's own effective name (the tag VALUE) as a member key
+                        if !fs.iter().any(|f| f.key == vd.key || f.ident == vd.key) && vd.key != e.tag {
+                            self.sibling_keys.push(vd.key.clone());
+                        }
                         let m = self.fields(fs, Some(&e.tag), depth);
                         self.sibling_keys = saved;
                         m
